@@ -143,6 +143,8 @@ func init() {
 		{"while-ident", "let r = true;", "while r"},
 		{"while-call", "", "while t()"},
 		{"while-compare", "let n = 0;", "while n == 0"},
+		{"for-over-a-huge-range", "", "for i in 0..9000000000000000000"},
+		{"for-over-a-huge-range-in-a-variable", "let big = 0..9000000000000000000;", "for i in big"},
 	}
 	bodies := []struct{ name, body string }{
 		{"empty", ""},
